@@ -211,6 +211,22 @@ class RelayMode(vlib.Mode):
                     case.append(f"deny {admin()} {sval(b)} {sval(str(now + 500))}"); case.append("sync")
                 case.append("members")
                 case.append(f"allow {admin()} {sval(b)} {sval(str(now + 500))}"); case.append("sync")
+        if rng.random() < 0.08:
+            # booking churn inside one code lifetime: a long-lived code, the booking's allow entry shortened by a second session, pruned away,
+            # then the booking cancelled and re-admitted: the first code must be dead (cancelled with the booking), whatever the allow list held
+            t, b = rng.choice(TOPICS[:2]), rng.choice(BIDS)
+            case.append(f"session {tok(now, topic=sval(t), bid=sval(b), scopes=lval(['read', 'write']))} {hx(t)}")
+            a_code = len(st["codes"]); st["codes"].append(t)
+            case.append(f"session {tok(now, topic=sval(t), bid=sval(b), scopes=lval(['read']), exp=f'i{now + 2}')} {hx(t)}")
+            st["codes"].append(t)
+            st["now"] = now = now + rng.choice([3, 6, 9])
+            case.append(f"now {now}")
+            if rng.random() < 0.8: case.append("prune")
+            case.append(f"deny {admin()} {sval(b)} {sval(str(now + 500))}"); case.append("sync")
+            if rng.random() < 0.8:
+                case.append(f"allow {admin()} {sval(b)} {sval(str(now + 500))}"); case.append("sync")
+            case.append(f"ws {hx('/session/' + t)} c{a_code}")
+            case.append("members")
         steps = rng.choice([6, 10, 16, 24])
         used = []     # request lines issued so far with a token that was built valid: replayed verbatim later (possibly after the clock moved)
         for _ in range(steps):
@@ -305,6 +321,8 @@ class RelayMode(vlib.Mode):
                                                                       stats(sig="tampered"), stats(exp="a"), "-", tok(now), stats(nbf=f"i{now + 3600}"), stats(iat="a")])
                 case.append(f"status {cred}")
                 if cred == stats(): used.append(case[-1])
+            elif r < 0.90 and rng.random() < 0.5:
+                case.append("prune")          # the periodic pruner runs: entries whose own expiry has passed go, nothing else changes
             elif r < 0.93:
                 marks = st.setdefault("marks", [])
                 if marks and rng.random() < 0.35:
@@ -488,6 +506,9 @@ class RelayMode(vlib.Mode):
                     for j, c in enumerate(conns):
                         if j != k and c["member"] and c["topic"] == conns[k]["topic"] and c["r"]:
                             pending[j] = pending.get(j, b"") + data; stats["delivered"] += 1
+            elif op == "prune":
+                for d_ in (denied, allowed):
+                    for k_ in [k_ for k_, v_ in d_.items() if v_ < now]: del d_[k_]
             elif op == "close":
                 k = int(f[1][1:])
                 if k < len(conns): conns[k]["member"] = False
@@ -533,7 +554,8 @@ class RelayMode(vlib.Mode):
             also_c11 = self.focus == "C11" and sig in ("code-for-invalid-bearer", "admin-call-granted-without-right", "status-granted-without-right", "bad-params-accepted")
             # the register's verdict is what the session handler consults: a code granted under a listed booking is the register's business too
             also_c10 = self.focus == "C10" and sig in ("code-for-invalid-bearer", "list-not-exact", "bad-params-accepted")
-            if self.focus is None or prop == self.focus or sig == "relay-crash-or-hang" or also_c11 or also_c10:
+            also_c02 = self.focus == "C02" and sig.startswith("joined-") and ("booking" in sig or "used" in sig or "older" in sig or "issued" in sig)
+            if self.focus is None or prop == self.focus or sig == "relay-crash-or-hang" or also_c11 or also_c10 or also_c02:
                 res.append((sig, desc))
         return res
 
